@@ -24,7 +24,7 @@ from .common import Report, Violation
 CLAUSES = {
     "Inv_C01_Conservation": "C01",
     "Inv_C02_NonNegative": "C02", "Inv_C02_BorrowedIsOpenPrincipal": "C02", "Obs_TotalIsAvailPlusHoldMinusBorrowed": "C02",
-    "Act_C04_FillOK": "C04", "Act_C04_OnlyBarsFill": "C04", "Act_C04_Complete": "C04",
+    "Act_C04_FillOK": "C04", "Act_C04_OnlyBarsFill": "C04", "Act_C04_Complete": "C04", "Act_C04_CompleteDust": "C04",
     "Inv_C05_OrderShape": "C05", "Act_C05_Lifecycle": "C05", "Act_C05_FillOrKill": "C05", "Obs_Listings": "C05",
     "Obs_Remaining": "C05", "Step_OpenList": "C05", "Inv_C05_Events": "C05",
     "Inv_C06_HoldIsSumOfOpen": "C06", "Inv_C06_NoOpenNoHold": "C06", "Inv_C06_HoldLeBalance": "C06",
@@ -567,6 +567,12 @@ def corpus() -> List[dict]:
         {"kind": "bar", "arg": dict(p=1, t=2, o=10, h=10, l=10, c=10, v=4)},
         {"kind": "cancel_order", "arg": 1},
         {"kind": "bar", "arg": dict(p=1, t=3, o=10, h=10, l=10, c=10, v=4)}]})
+    # KF-1 (known finding, C04): a fill whose quote amount rounds to zero is ignored -- kept so that every run reports it
+    cfg = base_cfg(scale={"BTC": 100, "USD": 100}, init={"BTC": 0, "USD": 1000})
+    out.append({"cfg": cfg, "steps": [
+        {"kind": "bar", "arg": dict(p=1, t=1, o=60, h=60, l=60, c=60, v=1000)},
+        {"kind": "create_order", "arg": _req(type="limit", amount=2, limit=50)},
+        {"kind": "bar", "arg": dict(p=1, t=2, o=2, h=5, l=2, c=5, v=1000)}]})
     # D15: rollback of the first auto-borrow loan vetoed by the margin rule (found by a seed sweep)
     d15 = os.path.join(os.path.dirname(os.path.abspath(__file__)), "corpus_d15.json")
     if os.path.exists(d15):
@@ -707,6 +713,8 @@ def judge(rep: Report, prop: str, traces, slimmed, verdicts, n_replay: int):
 
 def discriminate(clause: str, step: dict, cfg: dict) -> str:
     """The history class a known finding is keyed on: call kind + outcome + the configuration features involved."""
+    if clause == "Act_C04_CompleteDust":
+        return "zero_quote_fill_ignored"
     feats = [step["kind"], "ok" if step.get("ok") else "rejected:" + str(step.get("err"))]
     if cfg["lendMode"] == "margin":
         feats.append("margin")
